@@ -8,6 +8,15 @@ from pyvc.blobs import Atom, Blob
 from pyvc.spec import And, Or, Not, Implies, Ite, eq
 from fontTools.ttLib import TTLibError
 
+import os as _os
+import tempfile as _tempfile
+
+# Destination names: never opened for real while the obligations are explored (`open` is a recorder),
+# but a native replay of a counter-model runs the real save() - it must not drop files into the cwd.
+DEST_TTF = _os.path.join(_tempfile.gettempdir(), "pyvc-replay-dest.ttf")
+DEST_TTC = _os.path.join(_tempfile.gettempdir(), "pyvc-replay-dest.ttc")
+
+
 EXC_TYPES = (TTLibError, struct.error, AssertionError, ValueError, KeyError, IndexError, TypeError, AttributeError,
              NotImplementedError, ZeroDivisionError, OverflowError, EOFError, RuntimeError, LookupError,
              ArithmeticError, UnicodeError, OSError, StopIteration, MemoryError, Exception)
@@ -235,7 +244,7 @@ class SaveNeverOpensDestinationBeforeSuccess(Contract):
             class R(dict):
                 pass
             font.reader = R(a=1)
-        return dict(self=font, file="dest.ttf", reorderTables=rt)
+        return dict(self=font, file=DEST_TTF, reorderTables=rt)
 
     def call(self, f, a):
         try:
@@ -253,10 +262,10 @@ class SaveNeverOpensDestinationBeforeSuccess(Contract):
 
     ensures = [prop("destination-written-once-after-everything-succeeded", lambda a, old, r: (
         len(SaveNeverOpensDestinationBeforeSuccess._opens(a)) == 1
-        and SaveNeverOpensDestinationBeforeSuccess._opens(a)[0][1:] == ("dest.ttf", "wb")
-        and a._log.index(("_save",)) < a._log.index(("open", "dest.ttf", "wb"))
-        and (("reorder",) not in a._log or a._log.index(("reorder",)) < a._log.index(("open", "dest.ttf", "wb")))
-        and [e for e in a._log if e[0] == "write"] == [("write", "dest.ttf", b"FONTDATA")]))]
+        and SaveNeverOpensDestinationBeforeSuccess._opens(a)[0][1:] == (DEST_TTF, "wb")
+        and a._log.index(("_save",)) < a._log.index(("open", DEST_TTF, "wb"))
+        and (("reorder",) not in a._log or a._log.index(("reorder",)) < a._log.index(("open", DEST_TTF, "wb")))
+        and [e for e in a._log if e[0] == "write"] == [("write", DEST_TTF, b"FONTDATA")]))]
 
 
 @contract
@@ -395,7 +404,7 @@ class TTCSaveNeverOpensDestinationBeforeSuccess(Contract):
         ttc.fonts = [Member(0), Member(1)]
         if v2:
             ttc.dsig = Dsig()
-        return dict(self=ttc, file="dest.ttc")
+        return dict(self=ttc, file=DEST_TTC)
 
     def call(self, f, a):
         try:
@@ -408,8 +417,8 @@ class TTCSaveNeverOpensDestinationBeforeSuccess(Contract):
         return {_Boom: lambda a, self=self: self._where != "ok" and not [e for e in a._log if e[0] == "open"]}
 
     ensures = [prop("destination-opened-once-after-all-members-compiled", lambda a, old, r: (
-        [e[:3] for e in a._log if e[0] == "open"] == [("open", "dest.ttc", "wb")]
-        and all(a._log.index(e) < a._log.index(("open", "dest.ttc", "wb")) for e in a._log if e[0] in ("_save", "dsig"))
+        [e[:3] for e in a._log if e[0] == "open"] == [("open", DEST_TTC, "wb")]
+        and all(a._log.index(e) < a._log.index(("open", DEST_TTC, "wb")) for e in a._log if e[0] in ("_save", "dsig"))
         and [e[1] for e in a._log if e[0] == "_save"] == [0, 1]
         and len([e for e in a._log if e[0] == "write"]) == 1
         and ("seek-on-destination",) not in a._log))]
